@@ -61,6 +61,13 @@ CORPUS = {
       {"op": "set", "attr": "max_reflections", "value": 0},
       {"op": "read"}]),
  },
+ "C17": {
+  "fft_noise_period": rec("C17", "noise", {"n_steps": 3, "n": 16, "dt": 1e-9, "t0": 0.0, "buggify": False}, [
+      {"op": "new", "cls": "fft", "band": [1e8, 3.5e8], "band_kind": "inside", "amp": 1.0,
+       "unique": 1, "rms": 1.0, "T": 250.0, "R": 75.0},
+      {"op": "with_times", "v": 0, "k0": 8, "m": 16, "frac": 0.0},
+      {"op": "read", "v": 0}]),
+ },
  "C19": {
   "rejected_iadd_keeps_antenna": rec("C19", "detector", {"n_steps": 5, "noisy": False, "depth": 1}, [
       {"op": "make", "slot": 0, "spec": strd("StrPlain", 0.0), "kw": {}},
